@@ -241,6 +241,18 @@ func (w *World) runReplay(fr *FuncResult, args []concreteArg) ReplayResult {
 			rr.Reason = "the real function panics, but the model input does not satisfy the precondition: " + why
 			return rr
 		}
+		// a nil dereference on a synthesised zero-value receiver/argument says nothing: new(T) is not an object
+		// the program ever builds (its constructor fills the fields the method goes through)
+		zeroObj := false
+		for _, v := range rr.Inputs {
+			if strings.HasPrefix(v, "new(") {
+				zeroObj = true
+			}
+		}
+		if zeroObj && strings.Contains(strings.Join(obs, " "), "nil pointer dereference") {
+			rr.Reason = "the replay panics with a nil dereference on a zero-value object it had to synthesise: not a reproduction"
+			return rr
+		}
 		rr.Confirmed = true
 		rr.Reason = "the real function panics on the model input"
 		return rr
